@@ -1,5 +1,6 @@
 import RsslVerif.Lemmas.MacroSubst
 import RsslVerif.Lemmas.MacroHang
+import RsslVerif.Model.MacroTame
 /-!
 # Tame expansions: the big-step reading of `apply_macros` on which rssl and the C algorithm agree
 
@@ -23,15 +24,8 @@ with the rest of the source) provably coincide:
 This file: the relation and the model side, `tame_model`: a tame derivation is what `applyLoop` computes.
 -/
 namespace RsslVerif.Lemmas.MacroTame
-open RsslVerif.Model.Macro RsslVerif.Lemmas.MacroTerm RsslVerif.Lemmas.MacroSubst RsslVerif.Lemmas.MacroHang
-
-/-- the first token that is not white space (blank, comment, line end) -/
-def firstTok : List PTok → Option Tok
-  | [] => none
-  | t :: r => if t.tok.isWhitespace then firstTok r else some t.tok
-
-/-- the C reading of "followed by `(`": the next preprocessing token is `(` -/
-def startsParen (l : List PTok) : Bool := firstTok l == some .lparen
+open RsslVerif.Model.Macro RsslVerif.Model.MacroTame RsslVerif.Lemmas.MacroTerm RsslVerif.Lemmas.MacroSubst
+open RsslVerif.Lemmas.MacroHang
 
 /-- the identifier `n` selects entry `mi`: it is enabled and it is the only entry of that name -/
 structure Selects (env : List Entry) (n : String) (mi : Nat) (e : Entry) : Prop where
@@ -74,6 +68,35 @@ inductive Tame : List Entry → List PTok → List PTok → Prop
       NoFire env mi R rest' →
       Tame env rest' out →
       Tame env (⟨.id n, b⟩ :: rest) (R ++ out)
+
+/-! ## `disable` -/
+
+theorem disable_getElem? (env : List Entry) (mi j : Nat) :
+    (disable env mi)[j]? = (env[j]?).map (fun e => if j = mi then { e with disabled := true } else e) := by
+  unfold disable
+  rw [List.getElem?_modify]
+  cases env[j]? with
+  | none => rfl
+  | some e =>
+    simp only [Option.map_some]
+    by_cases h : mi = j
+    · subst h; simp
+    · have : ¬ j = mi := fun hh => h hh.symm
+      simp [h, this]
+
+theorem mem_disable {env : List Entry} {mi : Nat} {e' : Entry} (h : e' ∈ disable env mi) :
+    ∃ e ∈ env, e'.m = e.m ∧ (e.disabled = true → e'.disabled = true) := by
+  obtain ⟨j, hj⟩ := List.mem_iff_getElem?.mp h
+  rw [disable_getElem?] at hj
+  cases hget : env[j]? with
+  | none => simp [hget] at hj
+  | some e =>
+    simp only [hget, Option.map_some, Option.some.injEq] at hj
+    refine ⟨e, List.mem_of_getElem? hget, ?_, ?_⟩
+    · rw [← hj]; split <;> rfl
+    · intro hd; rw [← hj]; split
+      · rfl
+      · exact hd
 
 /-! ## white space and parentheses -/
 
